@@ -26,10 +26,7 @@
 (***************************************************************************)
 EXTENDS Pipeline, Json
 
-CONSTANTS Variant, MaxCompiles, Gen, ChoiceSet
-
-Procs == {"p1", "p2"}
-Seeds == {"0", "1"}
+CONSTANTS Variant, MaxCompiles, Gen, ChoiceSet, Procs, Seeds
 
 NP == NPass
 
@@ -109,7 +106,7 @@ Started == Len(log) + (IF Busy THEN 1 ELSE 0)
 ---------------------------------------------------------------------------
 (* what the passes and the back end find, as a function of the modules     *)
 
-OddSeed(p) == proc[p].seed = "1"
+OddSeed(p) == proc[p].seed \in {"1", "3"}
 
 SynthId(t, k) == "synthetic|" \o t \o "|" \o ToString(k)
 UserId(t, k) == "natural|" \o t \o "|" \o ToString(k)
@@ -269,6 +266,12 @@ Next ==
      \/ Step(p)
 
 Spec == Init /\ [][Next]_vars
+
+(* The invariants over the log depend only on the *set* of entries (without the  *)
+(* bookkeeping fields used by the generator), the future only on proc/impl and   *)
+(* the number of finished compilations: a sound state-space reduction.           *)
+Core(x) == [input |-> x.input, ids |-> x.ids, raw |-> x.raw, norm |-> x.norm, fresh |-> x.fresh, mode |-> x.mode]
+MCView == <<proc, impl, blamed, {Core(log[i]) : i \in DOMAIN log}, Len(log)>>
 
 ---------------------------------------------------------------------------
 (* Invariants *)
